@@ -680,11 +680,25 @@ class Interp:
                 return ('place', P)
         return None
 
+    # A term ('cell', key) is a reference (`&mut T` / `&T`) to a value that lives in the heap under that very term: it is handed out by
+    # a model that owns a store of its own (the values of a map whose keys are all known, rules/assocmap.py).  A local that holds
+    # such a term is a name for the cell for as long as it lives (the borrow checker: nothing else touches the cell meanwhile), so
+    # a Vec method on the local reads and writes the cell - not the local, which goes on holding the reference.
     def vec_read(self, tgt, st):
-        return st.env.get(tgt[1], ('unk', 'vec')) if tgt[0] == 'local' else self.read_place(tgt[1], st)
+        if tgt[0] == 'cell':
+            return st.heap.get(tgt[1], ('unk', 'cell'))
+        if tgt[0] == 'local':
+            v = st.env.get(tgt[1], ('unk', 'vec'))
+            return st.heap.get(v, ('unk', 'cell')) if v[0] == 'cell' else v
+        return self.read_place(tgt[1], st)
 
     def vec_write(self, tgt, val, st, node):
-        return st.set(tgt[1], val) if tgt[0] == 'local' else self.write_place(tgt[1], val, st, node)
+        if tgt[0] == 'cell':
+            return st.store(tgt[1], val)
+        if tgt[0] == 'local':
+            v = st.env.get(tgt[1])
+            return st.store(v, val) if v is not None and v[0] == 'cell' else st.set(tgt[1], val)
+        return self.write_place(tgt[1], val, st, node)
 
     def ev_Index(self, e, st):
         res, abn = self.seq([e['e'], e['idx']], st)
@@ -1316,6 +1330,9 @@ class Interp:
                         s = s.store(place, fv).event(('store', place, fv, node))
                     return [Out('val', UNIT, s)]
                 cur = st.env.get(inner['bind'])
+                if cur is not None and cur[0] == 'cell':
+                    # `*r = v` where r holds a reference to a tracked cell: the cell holds v from here on
+                    return [Out('val', UNIT, st.store(cur, val).event(('store', cur, val, node)))]
                 if cur is not None and cur[0] == 'field':
                     # `*r = v` where r was bound to a place (`let (a, b) = &mut *guard`): a store through the reference
                     s = st.store(cur, val).event(('store', cur, val, node))
@@ -1877,6 +1894,13 @@ class Interp:
                 and st.env.get(recv['bind'], ('unk',))[0] in TRACKED_VEC and cal.rsplit('::', 1)[-1] not in ('reserve', 'reserve_exact', 'shrink_to_fit'):
             forget = recv['bind']
         for vals, s in res:
+            if vals[0][0] == 'cell' and vals[0] in s.heap and hirq.strip_refs(e['recv'].get('ty') or '').startswith('alloc::vec::Vec<'):
+                # the receiver is a reference to a tracked cell that holds a vector (`map.entry(k).or_default().push(x)`): a method
+                # that borrows it mutably acts on the cell (vec_mutate); any other method reads what the cell holds now
+                if str(e['recv'].get('adj_ty') or e['recv'].get('ty') or '').startswith('&mut '):
+                    self.vec_mutate(('cell', vals[0]), cal, vals[1:], e, s, outs)
+                    continue
+                vals = [s.heap[vals[0]]] + list(vals[1:])
             for o in self.call(cal, vals, e, s):
                 if forget is not None and o.kind == 'val':
                     after = ('unk', 'vector after %s()' % cal.rsplit('::', 1)[-1])
@@ -1909,17 +1933,49 @@ class Interp:
         tgt = self.vec_target(e['recv'])
         if tgt is None:
             return None
-        name = cal.rsplit('::', 1)[-1]
-        own = 'alloc::vec::Vec::<T, A>::' in cal
         res, abn = self.seq(e['args'], st)
         outs = list(abn)
         for vals, s in res:
+            self.vec_mutate(tgt, cal, vals, e, s, outs)
+        return outs
+
+    def vec_mutate(self, tgt, cal, vals, e, s, outs):
+        """vec_mutator for one evaluation of the arguments: the method `cal` applied, with the argument values `vals`, to the tracked
+        vector `tgt` stands for - an owned local, a place, or (tgt = ('cell', ref)) the cell a reference term points at; the
+        outcomes are appended to `outs`.  Besides the methods listed at vec_mutator:
+          push(x)                        the elements followed by x (for a cell reached through a call chain; a push on a local is
+                                         modelled in ev_MethodCall)
+          extend(seq) / append(&mut o) / extend_from_slice(s)
+                                         the elements followed by the elements of the argument, in order (std: Extend pushes every
+                                         item the iterator yields; append moves all elements of `o` over and leaves it empty): a
+                                         listed vector when both are listed, else ('concat', old, argument)"""
+        name = cal.rsplit('::', 1)[-1]
+        own = 'alloc::vec::Vec::<T, A>::' in cal
+        if True:
             c = self.vec_read(tgt, s)
             site = e.get('id')
             def done(new, ret, s1=s):
                 s2 = self.vec_write(tgt, new, s1, e).event(('call', cal, (c,) + tuple(vals), e))
                 outs.append(Out('val', ret, s2))
-            if own and name == 'pop' and not vals:
+            if own and name == 'push' and len(vals) == 1:
+                old = octets_as_vec(c)
+                done(('vec', old[1] + (vals[0],)) if old[0] == 'vec' else ('vecpush', c, vals[0]), UNIT)
+            elif name in ('extend', 'append', 'extend_from_slice') and 'alloc::vec::Vec' in cal and len(vals) == 1 \
+                    and not hirq.strip_refs((e['args'][0].get('ty') if e.get('args') else '') or '').startswith('core::option::Option<') \
+                    and (tgt[0] == 'cell' or (listed_elems(c) is not None and (self.listed_elems(vals[0]) or listed_elems(vals[0])) is not None)):
+                old = listed_elems(c)
+                add = self.listed_elems(vals[0])
+                if add is None:
+                    add = listed_elems(vals[0])
+                s1 = s
+                if name == 'append':
+                    # (the vector the elements are moved out of is empty afterwards: followed for an owned local; what any other
+                    # source expression holds afterwards is not tracked here, and a rule that reads it again sees the unknown)
+                    src = hirq.peel_refs(e['args'][0])
+                    if src['k'] == 'Path' and src.get('res') == 'local' and src['bind'] in s.env:
+                        s1 = s.set(src['bind'], ('vec', ()) if s.env[src['bind']][0] in TRACKED_VEC else ('unk', 'vector after append()'))
+                done(('vec', tuple(old) + tuple(add)) if old is not None and add is not None else ('concat', c, vals[0]), UNIT, s1)
+            elif own and name == 'pop' and not vals:
                 if c[0] == 'vec':
                     done(('vec', c[1][:-1]), ('ctor', 'Some', (c[1][-1],)) if c[1] else ('ctor', 'None', ()))
                 elif c[0] == 'vecpush':
@@ -1946,7 +2002,6 @@ class Interp:
                         done(('many', c, el, el if truth else ('skip',)), UNIT, s3)
             else:
                 done(('mutated', c, cal, site), ('call', cal, (c,) + tuple(vals), site))
-        return outs
 
     def listed_vec_method(self, cal, name, own, c, vals, e, s, done, outs):
         """Positional `&mut self` methods of Vec / of the slice behind it on a vector whose elements are all listed (c = ('vec', elems);
@@ -1995,6 +2050,26 @@ class Interp:
                 return True
         if not own and cal == 'core::slice::<impl [T]>::reverse' and not vals:
             done(('vec', tuple(reversed(xs))), UNIT)
+            return True
+        if not own and cal in ('alloc::slice::<impl [T]>::sort_by_key', 'alloc::slice::<impl [T]>::sort_by_cached_key') and len(vals) == 1 and vals[0][0] in ('closure', 'fn'):
+            # sort_by_key(f) / sort_by_cached_key(f): the elements in ascending order of their keys f(&x), elements with equal keys in
+            # their original order (std: "This sort is stable (i.e., does not reorder equal elements)").  Modelled when f yields one
+            # known key for every element and all keys are of one kind that std and this comparison order alike: bool (false < true),
+            # integers, strings / octet strings (lexicographic by octet; UTF-8 keeps code point order)
+            # (how often f is called per element is not specified for sort_by_key: only a key function that does nothing but compute
+            # its answer - no call event, no store - is modelled)
+            keys, s1 = [], s
+            for x in xs:
+                ko = self.apply(vals[0], [x], e, s1)
+                if len(ko) != 1 or ko[0].kind != 'val' or ko[0].val[0] != 'lit' or ko[0].st.ev != s1.ev or ko[0].st.heap != s1.heap:
+                    return False
+                k, s1 = ko[0].val[1], ko[0].st
+                keys.append(k.encode('utf-8') if isinstance(k, str) else k)
+            kinds = {bool if isinstance(k, bool) else int if isinstance(k, int) else bytes if isinstance(k, bytes) else None for k in keys}
+            if None in kinds or len(kinds) > 1:
+                return False
+            order = sorted(range(n), key=lambda i: keys[i])          # (sorted() is stable as well)
+            done(('vec', tuple(xs[i] for i in order)), UNIT, s1)
             return True
         if not own and cal == 'core::slice::<impl [T]>::swap' and len(vals) == 2 and pos(vals[0]) is not None and pos(vals[1]) is not None:
             i, j = pos(vals[0]), pos(vals[1])
@@ -3283,6 +3358,23 @@ def builtin_summary(I, cal, args, node, st):
             return [Out('val', ('ctor', 'Ok', (('lit', args[0][1].decode('utf-8')),)), st)]
         except UnicodeDecodeError:
             return [Out('val', ('ctor', 'Err', (('unk', 'Utf8Error'),)), st)]
+    if cal == 'alloc::string::String::from_utf8' and len(args) == 1 and args[0][0] == 'lit' and isinstance(args[0][1], bytes):
+        # String::from_utf8(known octets): Ok(the String those octets spell) exactly when they are well-formed UTF-8 (the same test as
+        # str::from_utf8 above), otherwise Err(FromUtf8Error) - an error that owns the very octets it was given (into_bytes / as_bytes
+        # hand them back unchanged): in the term domain, where those two are transparent, the error is represented by its octets
+        try:
+            return [Out('val', ('ctor', 'Ok', (('lit', args[0][1].decode('utf-8')),)), st)]
+        except UnicodeDecodeError:
+            return [Out('val', ('ctor', 'Err', (args[0],)), st)]
+    if cal == 'alloc::string::String::from_utf8_lossy' and len(args) == 1 and args[0][0] == 'lit' and isinstance(args[0][1], bytes):
+        # String::from_utf8_lossy(known octets): Cow::Borrowed(the str) exactly when the octets are well-formed UTF-8 (std: "if our byte
+        # slice is invalid UTF-8 then we need to insert the replacement characters, which will change the size of the string, and hence,
+        # require a String; but if it's already valid UTF-8, we don't need a new allocation"), otherwise Cow::Owned of a text with
+        # U+FFFD in it, which is not computed here
+        try:
+            return [Out('val', ('ctor', 'Cow::Borrowed', (('lit', args[0][1].decode('utf-8')),)), st)]
+        except UnicodeDecodeError:
+            return [Out('val', ('ctor', 'Cow::Owned', (('unk', 'lossy text'),)), st)]
     if cal == 'core::slice::<impl [T]>::split' and len(args) == 2 and args[0][0] == 'lit' and isinstance(args[0][1], bytes) and args[1][0] in ('closure', 'fn') and len(args[0][1]) <= 512:
         # slice.split(pred) on known octets: the sub-slices between the elements pred accepts, in order, those elements left out - n
         # separators give n + 1 pieces, empty ones included (an empty slice gives one empty piece).  The predicate is applied to
